@@ -282,6 +282,12 @@ def gen(chk):
                   {"kind": "error", "errk": "Err", "errmsg": "E2", "out": "before\n1\n2\n"}, "native:catch-handler-raises/plain"))
     cases.append(('"before".p\nr := 7.try.{|x| boom(1)}.catch(Err) {|e| t(2)}.or(-1)\nr.p\n"after".p\n',
                   {"kind": "value", "out": "before\n1\n2\n2\nafter\n"}, "native:catch-handler-raises/plain"))
+    # Iterable methods on a lazily produced receiver whose first element raises: the error reaches the caller
+    for meth in (".empty?", ".A", ".any? {|x| true}"):
+        cases.append(('"before".p\nx := [0, 1].lazyMap {|x| boomz(x)}%s\n"unreached".p\n' % meth,
+                      {"kind": "error", "errk": "ZeroDivisionErr", "errmsg": "cannot be divided by 0", "out": "before\n0\n"}, "native:lazy-first-raises/plain"))
+    cases.append(('"before".p\nr := [(0:0).empty?, "a".empty?, [].empty?, [1].lazyMap {|x| t(x)}.empty?]\nr.p\n"after".p\n',
+                  {"kind": "value", "out": "before\n1\n[true, false, true, false]\nafter\n"}, "native:lazy-first-raises/plain"))
     # a zero step is an error for every kind of receiver (str included), literal or computed
     for recv in ('"pangaea"', "[1, 2, 3]", "5"):
         cases.append(('"before".p\nn := tz(1)\nx := %s[::n]\n"unreached".p\n' % recv,
@@ -320,6 +326,16 @@ def main(chk):
                  "theorem": "C07 position theorem instance"}, "C07:" + family.split("/")[0]))
         elif r["verdict"] == "disagree":
             model_only.append(r)
+    # a module that fails while it is loaded raises again when it is imported again (files: harness runtest, file mode)
+    mdir = os.path.join(BUILD, "c07_modules_%d" % os.getpid())
+    mfiles = [["main.pangaea", 'r := "".try.{|_| import("./badmod")}\nassertEq(r.err.type._name, "ZeroDivisionErr")\nr2 := "".try.{|_| import("./badmod")}\n'
+               'assertEq(r2.err?, true)\nassertEq(r2.err.type._name, "ZeroDivisionErr")\n"imports done".p\nm := import("./badmod")\n"unreached".p\n'],
+              ["badmod.pangaea", 'ready := 1\n"loading badmod".p\nbroken := [1, 2].at(0) / 0\n"badmod loaded".p\ndone := 2\n']]
+    mo = harness("runtest", [{"files": mfiles, "dir": mdir, "mode": "file"}])[0]
+    chk.count(("failing-module", "runtest"), True)
+    if not (mo["code"] != 0 and "imports done" in mo["out"] and "unreached" not in mo["out"] and "ZeroDivisionErr" in mo["err"]):
+        viol.append(("a module that raised while loading does not raise when it is imported again: exit %s, stdout %r, stderr %r" % (mo["code"], mo["out"][-200:], mo["err"][:200]),
+                     {"program": mfiles[0][1], "files": mfiles, "got": mo, "expected": "prints `imports done`, then ends with ZeroDivisionErr", "family": "failing-module"}, "C07:failing-module"))
     chk.cov["input_distribution"] = fam
     chk.cov["rule"] = ("fault injection: %d construct templates (+%d used only with a raise: forms whose value the marker oracle cannot print) (operands, elements, `*` unpacking, pair keys/values, range bounds, "
                        "positional/keyword/unpacked arguments, receiver, chain argument, condition/branches, &&/||, embedded-string parts, "
